@@ -54,6 +54,11 @@ CLAIMS["C10"] = ("beaconnet", "property-based testing (rapid) with scripted peer
     "A real node syncs from generated lists of honest / failing / lying scripted peers; separately its base store is corrupted and the chain check's report is compared with a per-back-end model and the repair with the true chain.",
     "Scripted peers speak at the SyncChain channel interface (no gRPC buffering); follow mode via the control API not covered here.", "DESIGN.md §3 C10")
 
+CLAIMS["C11"] = ("streamgate", "stateful property-based testing (rapid) with harness-owned interleaving: gated cursor / Send / AddCallback wrappers around the real SyncChain; oracle = delivered sequence vs. stored chain",
+    "The scan-vs-append and hand-over interleavings are explicit generated values because every cursor step, send and callback registration parks at a gate; the delivered sequence must be consecutive from the start round and complete at quiescence.",
+    "Gates sit at interface boundaries drand already has (chain.Cursor, SyncStream, CallbackStore); the callback worker goroutines run free.", "DESIGN.md §3 C11")
+ENGINES_EXTRA = [{"name": "streamgate", "path": "harness/streamgate", "serves_properties": ["C11", "C12"], "kind_free_text": "real SyncChain / callback store behind gated wrappers so that interleavings are generated values"}]
+
 PENDING_REASON = "check not built yet in this session (planned, see DESIGN.md §3); not claimed until it exists and is silent on the unchanged tree"
 
 
@@ -86,7 +91,7 @@ def main():
             "source_commits": HOOK_COMMITS,
             "add_only": True,
         },
-        "engines": ENGINES,
+        "engines": ENGINES + ENGINES_EXTRA,
         "checks": checks,
         "not_applicable": na,
         "notes": "All checks are property-based tests (pgregory.net/rapid v1.3.0) or enumerations by the same harness code, run by ./check (python3 driver). "
